@@ -60,9 +60,88 @@ def l2_rk_poly(run, rng, quick):
     return done
 
 
+def l2_controller(run, rng, quick):
+    """replay of the adaptive step-size controller: the (dt tried, accepted/final) sequence of the REAL
+    adaptive general-RK run, reconstructed from its debug log, against the Lean state machine fed
+    with the same step-size factors p"""
+    import logging
+    import re
+    from renormalizer.model import Model, Op, basis as ba
+    from renormalizer.mps import Mps, Mpo
+    from renormalizer.utils import EvolveConfig, EvolveMethod, CompressConfig, CompressCriteria
+    from renormalizer.utils import rk
+    import renormalizer.mps.mps as mpsmod
+    records = []
+
+    class H(logging.Handler):
+        def emit(self, rec):
+            records.append(rec.getMessage())
+    handler = H()
+    handler.setLevel(logging.DEBUG)
+    lg = mpsmod.logger
+    old_level = lg.level
+    old_prop = lg.propagate
+    lg.addHandler(handler)
+    lg.setLevel(logging.DEBUG)
+    lg.propagate = False
+    done = 0
+    reqs, meta = [], []
+    try:
+        for _ in range(3 if quick else 12):
+            ns = 3
+            basis = [ba.BasisHalfSpin(i) for i in range(ns)]
+            terms = [Op("X X", [i, i + 1], float(rng.uniform(0.5, 1.5))) for i in range(ns - 1)] + [Op("Z", i, float(rng.uniform(-1, 1))) for i in range(ns)]
+            model = Model(basis, terms)
+            mpo = Mpo(model)
+            mps = Mps.random(model, 0, 4, 1.0).to_complex()
+            mps.compress_config = CompressConfig(CompressCriteria.fixed, max_bonddim=8)
+            guess = float(rng.choice([5.0, 1.0, 0.3, 0.05]))
+            target = float(rng.choice([0.4, 0.25, 0.8]))
+            ec = EvolveConfig(EvolveMethod.prop_and_compress_tdrk, adaptive=True, guess_dt=guess, adaptive_rtol=float(rng.choice([1e-6, 1e-4])))
+            ec.rk_config = rk.RungeKutta(str(rng.choice(["RKF45", "Cash-Karp45"])))
+            mps.evolve_config = ec
+            del records[:]
+            mps.evolve(mpo, target, normalize=False)
+            dts, ps = [], []
+            for m in records:
+                a = re.match(r"guess_dt: (\S+), try time step size: (\S+)", m)
+                if a:
+                    dts.append(float(a.group(2)))
+                b = re.search(r"enlarge p parameter: (\S+)", m)
+                if b:
+                    ps.append(float(b.group(1)))
+            if not ps or len(ps) != len(dts):
+                run.count("controller-log-unparsed")
+                continue
+            from fractions import Fraction
+            reqs.append(f"ctl {common.rat(Fraction(target))} {common.rat(Fraction(guess))} " + ",".join(common.rat(Fraction(x)) for x in ps))
+            meta.append(dict(target=target, guess=guess, dts=dts, ps=ps, rejected=sum(1 for x in ps if x < 0.5)))
+            run.count("controller:rejections=%d" % meta[-1]["rejected"])
+    finally:
+        lg.removeHandler(handler)
+        lg.setLevel(old_level)
+        lg.propagate = old_prop
+    if reqs:
+        from fractions import Fraction
+        reps = common.run_driver("RenoVerif/Driver/C09.lean", reqs)
+        for m, req, rep in zip(meta, reqs, reps):
+            done += 1
+            steps, tail = rep.split(" | ")
+            mdts = [float(Fraction(x.split(":")[0])) for x in steps.split(" ")]
+            mdone = steps.split(" ")[-1].endswith("true")
+            applied = float(Fraction(tail.split(" ")[0]))
+            ok = len(mdts) == len(m["dts"]) and all(abs(a - b) <= 1e-10 * max(1.0, abs(b)) for a, b in zip(mdts, m["dts"])) and mdone \
+                and abs(applied - m["target"]) <= 1e-10
+            run.sample(dict(controller=m, model_dts=mdts, model_applied=applied), limit=4)
+            if not ok:
+                run.violation("corr:adaptive-controller", dict(correspondence="RenoVerif.RKStep.ctlStepFixed vs the adaptive loop of _evolve_prop_and_compress_tdrk",
+                                                               impl=m, model_dts=mdts, model_done=mdone, model_applied=applied), no_input=True)
+    return done
+
+
 if __name__ == "__main__":
     common.main_wrapper(lambda: generic_check.run_check(
-        "C09", "other", ["RenoVerif/Props/C09.lean"], [l2_rk_poly],
+        "C09", "other", ["RenoVerif/Props/C09.lean"], [l2_rk_poly, l2_controller],
         ["error orders of TDVP/P&C schemes, Lanczos/RK45 local solvers, adaptive step-size termination are numerical (measured by slopes)",
          "projector-splitting norm/energy conservation is measured, its algebraic reason (unitary local steps + C04 pushes) is not assembled into one Lean theorem"],
         "ten tableaux x one fixed step of the real general RK scheme at full bond dimension vs the model polynomial",
